@@ -20,7 +20,7 @@ THEOREMS = ['WV.C07.corr_linear', 'WV.C07.padIdx_linear', 'WV.C07.afb1dOne_symme
             'WV.C07T.lin_spec_colfilter', 'WV.C07T.lin_spec_coldfilt', 'WV.C07T.extendEven_lin', 'WV.C07T.extendMult4_lin', 'WV.C07T.q2c_lin',
             'WV.C07T.refLevel1_lin', 'WV.C07T.refLevel2_lin', 'WV.C07T.refLoop_lin', 'WV.C07T.refForward_linear', 'WV.C07T.DTCWTForward_linear',
             'WV.C07U.lin_spec_colifilt', 'WV.C07U.c2q_lin', 'WV.C07U.iadd_lin', 'WV.C07U.cropToHighs_lin', 'WV.C07U.refInvLevel1_lin', 'WV.C07U.refInvLevel2_lin',
-            'WV.C07U.refInvGo_lin', 'WV.C07U.refInverse_linear', 'WV.C07U.DTCWTInverse_linear', 'WV.C10Z.module_glue_gen', 'WV.C10Z.forward_keeps_no_state_gen', 'WV.C07W.dwt_zero_local', 'WV.C07W.wavedec_low_agree', 'WV.C07W.wavedec_low_cone', 'WV.C07W.wavedec_band_first', 'WV.C07W.wavedec_band_agree', 'WV.C07X.band_zero_local', 'WV.C07X.dwt2_zero_local', 'WV.C07X.low_zero_agree', 'WV.C07X.wavedec2_low_agree']
+            'WV.C07U.refInvGo_lin', 'WV.C07U.refInverse_linear', 'WV.C07U.DTCWTInverse_linear', 'WV.C10Z.module_glue_gen', 'WV.C10Z.forward_keeps_no_state_gen', 'WV.C07W.dwt_zero_local', 'WV.C07W.wavedec_low_agree', 'WV.C07W.wavedec_low_cone', 'WV.C07W.wavedec_band_first', 'WV.C07W.wavedec_band_agree', 'WV.C07X.band_zero_local', 'WV.C07X.dwt2_zero_local', 'WV.C07X.low_zero_agree', 'WV.C07X.wavedec2_low_agree', 'WV.C07W.idwt_zero_local']
 TABLE = dict(I1); TABLE.update(I2)
 
 
